@@ -1293,6 +1293,7 @@ var M = &run.Monitor{
 		need("wide_controls_accepted", 500)
 		need("wide_permissive_compared", 1500)
 		need("wide_marshal_collision_rejected", 100)
+		need("resume_failed_calls", 100)
 		return u
 	},
 	SelfTest: selfTest,
@@ -1356,6 +1357,7 @@ func main() {
 	run.Def(M, "inject", runInj)
 	run.Def(M, "marshal", runMarshal)
 	run.Def(M, "wide", runWide)
+	run.Def(M, "resume", runResume)
 	M.Gen = generate
 	run.Main(M)
 }
@@ -1372,6 +1374,7 @@ var badGo = []string{"a\xffb", "\xc3", "x\xed\xa0\x80", "\xc0\x80z", "é\xff", "
 
 func generate(w *run.W) {
 	generateWide(w)
+	generateResume(w)
 	nb := w.Pick(640, 6400)
 	for b := 0; b < nb; b++ {
 		if !w.Mine(b) {
